@@ -212,8 +212,8 @@ MUTANTS = [
      "", 3000),
     # ---- C18
     ("c18-no-bounds-test", "C18", "parameters.py",
-     "        if not self._min <= value <= self._max:\n            raise ValueError(f\"parameter value {value} not between \" + \\\n                             f\"{self._min} and {self._max}\")\n        self._value = value\n\n\nclass InputParameterFloat",
-     "        self._value = value\n\n\nclass InputParameterFloat", 20000),
+     "        if not self._min <= value <= self._max:\n            raise ValueError(f\"parameter value {value} not between \" + \\\n                             f\"{self._min} and {self._max}\")\n        self._value = value",
+     "        self._value = value", 20000),
     ("c18-str-readonly-skipped", "C18", "parameters.py",
      "        if self.read_only:\n            raise ValueError(f\"parameter {self.key} is read only\")\n        if not isinstance(value, str):",
      "        if not isinstance(value, str):", 20000),
